@@ -82,7 +82,9 @@ def scan_forbidden() -> list[str]:
     `Hypothesis` are allowed inside Sections only; we check that each file's
     occurrences are between Section/End."""
     bad = []
-    for f in sorted(COQ.rglob("*.v")):
+    listed = [COQ / l.strip() for l in (COQ / "_CoqProject").read_text().splitlines()
+              if l.strip().endswith(".v")]
+    for f in sorted(listed):
         depth = 0
         in_comment = 0
         for i, line in enumerate(f.read_text().splitlines(), 1):
